@@ -68,6 +68,11 @@ pub struct WorldSpec {
     /// the repository uses SHA-256 object names (64 hex digits) instead of SHA-1
     #[serde(default)]
     pub sha256_repo: bool,
+    /// wall-clock faults: the k-th monorail process started in this world (counted cyclically) runs with its
+    /// realtime clock shifted by `<offset_secs>` and, with `<offset>:<after_reads>:<delta>`, jumping by <delta>
+    /// seconds after that many readings (shim seam FSFAULT_CLOCK). An empty entry is a correct clock.
+    #[serde(default)]
+    pub clock_plan: Vec<String>,
 }
 
 impl WorldSpec {
@@ -270,6 +275,29 @@ pub struct World {
     pub nofile: Option<u64>,
     /// working directory of every monorail invocation, relative to the root (None = the root itself)
     pub cwd_rel: Option<String>,
+    clock_idx: std::cell::Cell<usize>,
+}
+
+/// how many monorail processes were started with a wrong or jumping wall clock (evidence)
+pub static CLOCK_FAULTS: std::sync::atomic::AtomicU64 = std::sync::atomic::AtomicU64::new(0);
+
+/// A clock plan for a history: offsets from seconds to years in both directions, some with a jump in the middle
+/// of the invocation; about one entry in four is a correct clock.
+pub fn gen_clock_plan(rng: &mut crate::prng::Rng) -> Vec<String> {
+    let n = rng.range(5, 9);
+    (0..n)
+        .map(|_| {
+            if rng.chance(1, 4) {
+                return String::new();
+            }
+            let off = *rng.pick(&[-157_000_000i64, -3_456_000, -86_400, -3_600, -2, 0, 1, 3_600, 86_400, 34_560_000, 378_000_000]);
+            if rng.chance(1, 3) {
+                format!("{}:{}:{}", off, rng.range(0, 6), *rng.pick(&[-172_800i64, -3_600, -1, 3_600, 2_592_000]))
+            } else {
+                off.to_string()
+            }
+        })
+        .collect()
 }
 
 impl Drop for World {
@@ -298,6 +326,7 @@ impl World {
             config_name: "Monorail.json".into(),
             nofile: None,
             cwd_rel: None,
+            clock_idx: std::cell::Cell::new(0),
         };
         let helper = bin_dir().join("vhelper");
         for t in &spec.targets {
@@ -424,6 +453,16 @@ impl World {
         if self.spec.default_ports != 0 {
             cmd.env("LD_PRELOAD", shim_path());
             cmd.env("FSFAULT_PORTMAP", format!("5917:{},5918:{}", self.ports.lock, self.ports.log));
+        }
+        if !self.spec.clock_plan.is_empty() {
+            let k = self.clock_idx.get();
+            self.clock_idx.set(k + 1);
+            let c = &self.spec.clock_plan[k % self.spec.clock_plan.len()];
+            if !c.is_empty() {
+                cmd.env("LD_PRELOAD", shim_path());
+                cmd.env("FSFAULT_CLOCK", c);
+                CLOCK_FAULTS.fetch_add(1, Ordering::Relaxed);
+            }
         }
         cmd.arg("-f").arg(self.root.join(&self.config_name));
         cmd.args(args);
